@@ -70,6 +70,14 @@ class SeqModel:
                 self._alpha.append({'s': si, 'name': 'IDLE', 'line': b'IDLE'})
                 self._alpha.append({'s': si, 'name': 'DONE',
                                     'line': b'DONE'})
+        # a delivery agent: a connection that never selects anything (its
+        # message's \Recent is credited to somebody else's selection), and
+        # the message arrives already \Deleted so that the next EXPUNGE by
+        # anyone removes it before the others have seen it
+        self.agent = nsess + (1 if observer else 0)
+        self._alpha.append({'s': self.agent, 'name': 'DELIVER+Del',
+                            'line': b'APPEND INBOX (\\Deleted) '
+                                    + lit(msg(8))})
 
     def alphabet(self):
         return self._alpha
@@ -79,7 +87,7 @@ class SeqModel:
         w = DictWorld(users={'alice': ('pw', ())})
         ctx = Ctx(w)
         n = self.nsess + (1 if self.observer else 0)
-        for si in range(n):
+        for si in range(n + 1):            # the last one is the agent
             ctx.connect()
             st = ctx.do(si, b'LOGIN alice pw')
             assert st.cond == 'OK', st.raw
